@@ -1,7 +1,9 @@
 import Csverif.Model.Storage
 import Csverif.Driver.Wire
 /- Line protocol, storage layer.  Values and tags are opaque tokens (no spaces).
-   `create T V` | `update T V E` | `delete T E` | `read T E` | `readall T|~` | `reopen` ; E = nat or `~`. -/
+   `create T V` | `update T V E` | `delete T E` | `read T E` | `readall T|~` | `reopen` ; E = nat or `~`.
+   sqlite layer only: `readpaged T|~ P B` = the model's keyset-paged `read_all` with page size P and cursor rule
+   `pos := last id + B` (Model/Storage.lean `pagedReadAll`; B = 0 is the correct rule). -/
 namespace CS.Driver.Storage
 open CS.Storage CS.Wire
 
@@ -28,9 +30,15 @@ def encRes : Res String → String
   | .valueError => "ValueError"
 
 def stepSqlite (t : Sqlite.Table String) (toks : List String) : Sqlite.Table String × String :=
-  match parseOp toks with
-  | none => (t, "bad-op")
-  | some op => let (t', r) := Sqlite.step t op; (t', encRes r)
+  match toks with
+  | ["readpaged", tg, p, b] =>
+    match p.toNat?, b.toNat? with
+    | some p, some b => (t, encRes (Sqlite.pagedReadAll t (if tg == "~" then none else some tg) p b))
+    | _, _ => (t, "bad-op")
+  | _ =>
+    match parseOp toks with
+    | none => (t, "bad-op")
+    | some op => let (t', r) := Sqlite.step t op; (t', encRes r)
 
 def stepMock (s : Mock.St String) (toks : List String) : Mock.St String × String :=
   match toks with
